@@ -218,10 +218,28 @@ def _atom(alpha, v):
     raise ValueError(alpha)
 
 
-def _mk(shape, j, alpha):
+BIN_SELECTORS = ('+', '-', '*', '/', 'min', 'max', '<', 'pow')
+UN_SELECTORS = ('neg', 'abs', 'sin', 'cos', 'midicps', 'sqrt', 'floor', 'tanh')
+
+
+def _special_atom(cname, pname, v):
+    """Parameters that are not signals: operator selectors and Klang-style
+    specification tuples need values of their own kind to be defined at all."""
+    if pname == 'selector':
+        names = UN_SELECTORS if cname == 'UnaryOpUGen' else BIN_SELECTORS
+        return names[v % len(names)]
+    if pname in ('spec', 'specs'):
+        return ([100 + v, 200 + v], [0.25, 0.5], [0, 0.75])
+    return None
+
+
+def _mk(shape, j, alpha, cname=None, pname=None):
     """Value of shape `shape` for parameter position j."""
     CL = _sc3()['CL']
-    a = lambda k: _atom(alpha, 2 + 10 * j + k)
+
+    def a(k):
+        sp = _special_atom(cname, pname, 2 + 10 * j + k)
+        return sp if sp is not None else _atom(alpha, 2 + 10 * j + k)
     if shape == 's':
         return a(0)
     if shape == 't':
@@ -336,9 +354,9 @@ def _ctor_case(name, m, kind, shapes, alpha):
         kw = {}
         for j, ((p, _), s) in enumerate(zip(first, shapes)):
             if s != 'om':
-                kw[p] = _mk(s, j, alpha)
+                kw[p] = _mk(s, j, alpha, name, p)
         for j, p in enumerate(fill):
-            kw[p] = _mk('s', 5 + j, alpha)
+            kw[p] = _mk('s', 5 + j, alpha, name, p)
         return kw
 
     any_list = any(s in LISTY for s in shapes)
@@ -380,7 +398,13 @@ def _ctor_cases(name, m, tier, rng_seed):
     weight = {'om': 0, 's': 0, 't': 1, 'l1': 2, 'l2': 3, 'cl': 3, 'l3': 4,
               'n': 5, 'l4': 5, 'clcl': 6, 'n2': 7}
     combos.sort(key=lambda c: (sum(weight[s] for s in c), c))
-    return [(c, a) for c in combos for a in alphas]
+    if tier == 'thorough':
+        return [(c, a) for c in combos for a in alphas]
+    # quick: the whole grid with int atoms, every third shape tuple (a class
+    # dependent third) also with audio-rate unit atoms
+    off = sum(map(ord, name + m)) % 3
+    return [(c, a) for i, c in enumerate(combos) for a in alphas
+            if a == 'int' or i % 3 == off]
 
 
 def _ctor_worker(job):
@@ -437,7 +461,13 @@ def check_ctor(rep, pool):
             samples.extend(smp)
         for v in viols:
             _report_ctor(rep, v)
-    dead = sorted(c for c, d in per_class.items() if d == 0)
+    noparam = sorted(set(n for (n, m, k, _) in targets
+                         if not _ctor_signature(n, m)[1]))
+    dead = sorted(c for c, d in per_class.items()
+                  if d == 0 and c not in noparam)
+    if noparam:
+        rep.note('ctor: constructors without parameters (nothing to expand, '
+                 'one trivial call each): ' + ', '.join(noparam))
     own = sum(1 for t in targets if t[3])
     reasons = {}
     for (c, m, why) in excluded:
@@ -462,7 +492,7 @@ def check_ctor(rep, pool):
               % (len(targets),
                  list(SHAPES_THOROUGH if rep.tier == 'thorough' else SHAPES_QUICK),
                  ['int', 'ar', 'kr', 'mix'] if rep.tier == 'thorough'
-                 else ['int', 'ar']),
+                 else ['int (all)', 'ar (every 3rd shape tuple)']),
         evaluations=n, distinct_nontrivial=distinct,
         rule='a case is one (constructor, shape tuple, alphabet); non-trivial '
              '= at least one list/ChannelList/tuple argument and the '
@@ -782,7 +812,7 @@ def _chm_specs(name, ps, tier, rng):
         if p == 'label':
             return (p, 'const', 'lbl')
         return (p, 'shape', shape_of[p])
-    limit = 4000 if tier == 'thorough' else 220
+    limit = 2500 if tier == 'thorough' else 220
     total = len(NUM_SHAPES) ** len(num)
     if total <= limit:
         combos = list(itertools.product(NUM_SHAPES, repeat=len(num)))
@@ -831,6 +861,26 @@ def _chm_specs(name, ps, tier, rng):
     return specs
 
 
+def _chm_classify(name, ps, recv, rate, spec, variant):
+    """Which input class does a failing case belong to (for the key)?
+    'nested-list': only the nested receiver fails (the flat receiver with the
+    same arguments does not); 'defaults': only the omitted positions matter
+    (filling them with ChannelList's own default values repairs the case);
+    else 'grid'."""
+    flat = recv
+    if recv in CHM_NESTED:
+        flat = 'r3'
+        if _chm_case(name, flat, rate, spec)[0] != 'viol':
+            return 'nested-list'
+    if variant == 'defaults':
+        dflt = dict(ps)
+        full = [(p, 'const', dflt[p]) if k == 'omit' else (p, k, v)
+                for (p, k, v) in spec]
+        if _chm_case(name, flat, rate, full)[0] != 'viol':
+            return 'defaults'
+    return 'grid'
+
+
 def _chm_worker(job):
     import random
     name, ps, tier, seed = job
@@ -859,20 +909,8 @@ def _chm_worker(job):
                 if not samples and variant == 'grid' and n > 20:
                     samples.append(d)
                 if st == 'viol':
-                    if variant == 'defaults':
-                        # is it really the default values?  Fill the omitted
-                        # positions with ChannelList's own defaults: if the
-                        # call still deviates it is not a defaults problem.
-                        dflt = dict(ps)
-                        full = [(p, 'const', dflt[p]) if k == 'omit' else
-                                (p, k, v) for (p, k, v) in spec]
-                        if _chm_case(name, recv, rate, full)[0] == 'viol':
-                            d['variant'] = 'grid'
-                    if recv in CHM_NESTED and \
-                            _chm_case(name, 'r3', rate, spec)[0] != 'viol':
-                        # only the nested receiver fails, the flat one of the
-                        # same size does not
-                        d['variant'] = 'nested-list'
+                    d['variant'] = _chm_classify(name, ps, recv, rate, spec,
+                                                 variant)
                     k = sum(1 for w in viols if w['variant'] == d['variant'])
                     if k < 3:
                         d.update(what=what, observed=obs, expected=exp)
@@ -937,7 +975,7 @@ def check_chlist_methods(rep, pool):
               'single-position + seeded random), mode strings rotated, plus '
               'default-filled variants' % (len(methods), list(CHM_RECV),
                                            list(NUM_SHAPES),
-                                           4000 if rep.tier == 'thorough' else 220),
+                                           2500 if rep.tier == 'thorough' else 220),
         evaluations=n, distinct_nontrivial=distinct,
         rule='case = (method, receiver, argument spec); non-trivial = inner '
              'single-unit calls defined (%d undefined)' % undef,
@@ -1090,7 +1128,10 @@ def _out_case_bytes(cname, nfixed, bus_shape, chan_shape):
         cls.ar(*fixed, out)
     try:
         _, sd = _in_build(body, finish=True, name='c03out')
-        data = bytes(sd.as_bytes())
+        mv = sd.as_bytes()
+        data = bytes(mv)
+        if isinstance(mv, memoryview):
+            mv.release()    # else CPython may print a SystemError at gc time
     except Exception as e:
         return ('viol', 'build raises %s: %s' % (type(e).__name__, e), None, None)
     d = scgf.parse(data)[0]
